@@ -72,15 +72,22 @@ struct Script {
     prefix: Vec<u32>,
     rec: Vec<Point>,
     error: Option<String>,
+    /// largest remainder length a pivot was drawn for in this execution
+    nmax: usize,
+    /// the execution was cut off by the pivot-draw budget
+    runaway: bool,
 }
 
 thread_local! {
+    static IDLE_DRAWS: std::cell::Cell<u64> = std::cell::Cell::new(0);
     static SCRIPT: RefCell<Script> = RefCell::new(Script {
         active: false,
         mode: PivotMode::All,
         prefix: Vec::new(),
         rec: Vec::new(),
         error: None,
+        nmax: 0,
+        runaway: false,
     });
     static INSTALLED: RefCell<bool> = RefCell::new(false);
 }
@@ -105,14 +112,41 @@ fn opt_to_value(mode: &PivotMode, n: usize, opt: u32) -> usize {
     }
 }
 
+/// Pivot draws allowed in one execution (the longest legitimate executions, bulk requests on lanes of a
+/// few hundred elements under adversarial policies, draw about 10^4).
+pub const MAX_DRAWS: usize = 200_000;
+pub const RUNAWAY: &str = "pivot-draw budget exceeded (more draws than 4 n^2 + 256 for the largest remainder length n seen): the routine does not terminate under this pivot sequence";
+
 fn chooser(n: usize, _drawn: usize) -> usize {
     SCRIPT.with(|s| {
         let mut s = s.borrow_mut();
         if !s.active {
-            // No exploration in progress: deterministic default (middle element).
+            // No exploration in progress: deterministic default (middle element). Guard against a routine
+            // that does not terminate under that policy (the counter is reset by every guarded call).
+            let idle = IDLE_DRAWS.with(|c| {
+                c.set(c.get() + 1);
+                c.get()
+            });
+            if idle > 1_000_000 {
+                drop(s);
+                panic!("{}", RUNAWAY);
+            }
             return n / 2;
         }
         let pos = s.rec.len();
+        if n > s.nmax {
+            s.nmax = n;
+        }
+        // a selection of one position on a remainder of length m draws at most m - 1 pivots, a bulk
+        // selection at most one per element and requested position: 4 * nmax^2 + 256 is generous
+        if pos >= MAX_DRAWS || pos > 256 + 4 * s.nmax * s.nmax {
+            s.runaway = true;
+            // The routine keeps asking for pivots: under this pivot sequence it does not terminate
+            // (e.g. a recursion that does not shrink when the pivot is the maximum). Unwinding from
+            // here ends the call; the harness sees a panic of an in-range call.
+            drop(s);
+            panic!("{}", RUNAWAY);
+        }
         if let PivotMode::Forced(vals) = &s.mode {
             let v = if pos < vals.len() { vals[pos] } else { n / 2 };
             if v >= n {
@@ -161,7 +195,19 @@ pub fn begin(mode: &PivotMode, prefix: &[u32]) {
         s.prefix.extend_from_slice(prefix);
         s.rec.clear();
         s.error = None;
+        s.nmax = 0;
+        s.runaway = false;
     });
+}
+
+/// Resets the pivot-draw counter used outside explorations (called at the start of every guarded call).
+pub fn reset_idle_budget() {
+    IDLE_DRAWS.with(|c| c.set(0));
+}
+
+/// Whether the execution that just ended was cut off by the pivot-draw budget.
+pub fn was_runaway() -> bool {
+    SCRIPT.with(|s| s.borrow().runaway)
 }
 
 /// Leaves exploration mode after a case body was abandoned by a panic.
